@@ -23,11 +23,13 @@ package verifsim
 //   handshake timeout   : no earlier than 2 x HandshakeIdleTimeout - 1 ms after creation
 
 import (
+	"bytes"
 	"context"
 	"errors"
 	"fmt"
 	"math/bits"
 	"os"
+	"slices"
 	"strings"
 	"sync"
 	"testing"
@@ -67,6 +69,7 @@ type ShutScenario struct {
 	AcceptDelayMS int64       `json:"accept_delay_ms,omitempty"`
 	ResetKey      bool        `json:"reset_key,omitempty"`
 	PokeUS        int64       `json:"poke_us,omitempty"`
+	ResetLen      int         `json:"reset_len,omitempty"` // cause reset: > 0 = the restarted server's reset is a forged one of exactly this many bytes (21 = the smallest valid)
 	FinalSide     int         `json:"final_side"`
 	ProbesIn      int         `json:"probes_in,omitempty"`
 	ProbesLate    int         `json:"probes_late,omitempty"`
@@ -139,6 +142,11 @@ func shutGen(seed uint64, tier string) KScenario {
 	sc.Cfg.IdleMS = [2]int64{int64(idles[r.N(len(idles))]), int64(idles[r.N(len(idles))])}
 	if spec {
 		sc.Cfg.IdleMS[0] = 0 // the spec advertises 30 s
+		if r.P(0.5) {
+			// ... or nothing at all (max_idle_timeout suppressed: "no idle timeout" on the client's part): the period both
+			// sides run with is then the server's alone
+			sc.Cfg.Derive = &WDerive{Suppress: []uint64{0x01}}
+		}
 	}
 	for k := 0; k < 2; k++ {
 		if r.P(0.3) {
@@ -213,6 +221,7 @@ func shutGen(seed uint64, tier string) KScenario {
 	case "reset":
 		sc.ResetKey = true
 		sc.PokeUS = int64(r.Pick(0, 100, 5000, 200000))
+		sc.ResetLen = r.Pick(0, 0, 0, 21, 22, 25, 38, 41, 42, 43, 100, 1200)
 	case "hs-silent-server":
 		sc.Net.Outages = []WOutage{{Dir: 1, FromMS: 0, ToMS: 1000000}}
 	case "hs-silent-client":
@@ -307,32 +316,33 @@ type shutRun struct {
 	acancel context.CancelFunc
 	wg      sync.WaitGroup
 
-	t0NS         int64
-	dialCancel   context.CancelCauseFunc
-	dialCancelNS int64 // when the scripted cancellation happened (0 = never)
-	srvReady     chan struct{}
-	lnCloseNS    [2]int64 // call, return
-	trCloseNS    [2][2]int64
-	trClosed     [2]bool
-	resetDone    bool
-	last1RTT     [2][]byte // last datagram carrying a 1-RTT packet, per direction (the peer's current connection ID)
-	lastBig      [2][]byte // the last one large enough to be answered by a stateless reset
-	extraTr      []*quic.Transport
-	extraConns   []*simnet.SimConn
-	aliveAt      [2]bool
-	aliveChecked bool
-	causeFiredNS int64
-	resetKey     quic.StatelessResetKey
-	hsIdle       [2]time.Duration
-	cfgIdle      [2]time.Duration
-	giveUpNS     int64
-	rdl          []interface{ SetReadDeadline(time.Time) error }
-	wdl          []interface{ SetWriteDeadline(time.Time) error }
-	protoNS      int64
-	protoCode    uint64
-	lastPkt      [2]*TapPacket
-	afterWG      sync.WaitGroup
-	deferred     [][2]string
+	t0NS          int64
+	dialCancel    context.CancelCauseFunc
+	dialCancelNS  int64 // when the scripted cancellation happened (0 = never)
+	srvReady      chan struct{}
+	lnCloseNS     [2]int64 // call, return
+	trCloseNS     [2][2]int64
+	trClosed      [2]bool
+	resetDone     bool
+	last1RTT      [2][]byte // last datagram carrying a 1-RTT packet, per direction (the peer's current connection ID)
+	lastBig       [2][]byte // the last one large enough to be answered by a stateless reset
+	extraTr       []*quic.Transport
+	forgedResetNS int64
+	extraConns    []*simnet.SimConn
+	aliveAt       [2]bool
+	aliveChecked  bool
+	causeFiredNS  int64
+	resetKey      quic.StatelessResetKey
+	hsIdle        [2]time.Duration
+	cfgIdle       [2]time.Duration
+	giveUpNS      int64
+	rdl           []interface{ SetReadDeadline(time.Time) error }
+	wdl           []interface{ SetWriteDeadline(time.Time) error }
+	protoNS       int64
+	protoCode     uint64
+	lastPkt       [2]*TapPacket
+	afterWG       sync.WaitGroup
+	deferred      [][2]string
 }
 
 func (s *shutRun) now() int64 { return s.w.NowNS() }
@@ -786,6 +796,23 @@ func (s *shutRun) causeAction(atNS int64) {
 		if !s.sleep(time.Duration(sc.PokeUS) * time.Microsecond) {
 			return
 		}
+		if sc.ResetLen >= 21 {
+			// a stateless reset of a chosen size, as a peer may send it (RFC 9000, 10.3: at least 21 bytes, unpredictable bits,
+			// the token of the connection ID the client addresses the server by in the last 16 bytes)
+			if tok := s.clientsResetToken(); tok != nil {
+				kr := NewKRng(KMix(sc.Seed, 0x57a7e1e55))
+				pkt := kr.Bytes(sc.ResetLen - 16)
+				pkt[0] = 0x40 | pkt[0]&0x3f
+				pkt = append(pkt, tok...)
+				s.mu.Lock()
+				s.forgedResetNS = s.now()
+				s.mu.Unlock()
+				s.w.InjectTo(1, pkt)
+				s.res.Probe(fmt.Sprintf("forged-stateless-reset-%d-bytes", sc.ResetLen))
+				return
+			}
+			s.res.Probe("forged-stateless-reset-no-token-known")
+		}
 		// the client application sends something large enough to be answered by a stateless reset
 		s.mu.Lock()
 		var st *quic.Stream
@@ -801,6 +828,41 @@ func (s *shutRun) causeAction(atNS int64) {
 			s.call(0, "write", false, func() error { _, e := st.Write(b); return e })
 		}
 	}
+}
+
+// clientsResetToken: the stateless-reset token that belongs to the connection ID the client currently addresses the server by,
+// read off the wire (stateless_reset_token transport parameter for the handshake ID, NEW_CONNECTION_ID frames for later ones).
+func (s *shutRun) clientsResetToken() []byte {
+	s.w.mu.Lock()
+	defer s.w.mu.Unlock()
+	s.w.Tap.mu.Lock()
+	defer s.w.Tap.mu.Unlock()
+	var dcid []byte
+	var conn *TapConn
+	for _, p := range s.w.Tap.All {
+		if p.Dir == 0 && p.Type == Tap1RTT && p.Opened && p.Conn != nil && !p.Conn.Shadow {
+			dcid, conn = p.DCID, p.Conn
+		}
+	}
+	if conn == nil || len(dcid) == 0 {
+		return nil
+	}
+	for _, p := range conn.Packets {
+		if p.Dir != 1 {
+			continue
+		}
+		for i := range p.Frames {
+			if f := &p.Frames[i]; f.Name == "NEW_CONNECTION_ID" && bytes.Equal(f.CID, dcid) && len(f.Token) == 16 {
+				return append([]byte{}, f.Token...)
+			}
+		}
+	}
+	if bytes.Equal(dcid, conn.ServerSCID) {
+		if tp, ok := tapTP(conn.SrvTP, 0x02); ok && len(tp.Val) == 16 {
+			return append([]byte{}, tp.Val...)
+		}
+	}
+	return nil
 }
 
 // sealMisbehaving builds a 1-RTT packet from the peer of `victim` that violates a limit: a STREAM frame far beyond the
@@ -875,6 +937,10 @@ func shutRunSim(t *testing.T, ksc KScenario, res *KResult) {
 	for k := 0; k < 2; k++ {
 		s.hsIdle[k] = hsIdle(&sc.Cfg, k)
 		s.cfgIdle[k] = time.Duration(nzIdle(sc.Cfg.IdleMS[k])) * time.Millisecond
+	}
+	if d := sc.Cfg.Derive; d != nil && slices.Contains(d.Suppress, 0x01) {
+		// a client that advertises no idle timeout runs with the server's (which it raises to 5 s if smaller)
+		s.cfgIdle[0] = max(s.cfgIdle[1], 5*time.Second)
 	}
 	// remember the last datagram carrying a 1-RTT packet per direction (material for late-packet probes)
 	oldSend := w.OnSend
@@ -1751,6 +1817,9 @@ func (s *shutRun) judgeCause(k int, v *shutView, ccs []shutCC, tc *TapConn) {
 				}
 			}
 		}
+		if k == 0 && s.forgedResetNS > 0 && s.forgedResetNS <= D {
+			ok = true // the harness's own forged reset (injected, not in the datagram log)
+		}
 		if !ok {
 			s.report("(3) connection reports a stateless reset although none was delivered to it", "side %d at %v", k, time.Duration(D))
 		}
@@ -2160,7 +2229,8 @@ func (s *shutRun) judgeExact(v [2]*shutView) {
 				// (only a short-header packet is answered with a stateless reset; late Handshake ACKs are long-header packets)
 				poked = poked || (rec.SentNS > s.trCloseNS[1][1] && rec.Size > 43 && len(rec.Delivered) > 0 && len(rec.Pkts) > 0 && rec.Pkts[0].Type == Tap1RTT)
 			}
-			if poked {
+			forged := s.forgedResetNS > 0 // (the judge runs after every goroutine of the workload has finished with it)
+			if poked || forged {
 				want(0, "reset")
 			}
 		}
